@@ -17,7 +17,6 @@ import os
 import random
 import sys
 import threading
-import time
 
 sys.path.insert(0, os.path.dirname(os.path.abspath(__file__)))
 import _pool_util as PU  # noqa: E402
